@@ -1374,11 +1374,20 @@ func (w *dnsWorld) cachedUnder(raw string) *DnsCache {
 	return c
 }
 
-func (w *dnsWorld) controllerOption() *DnsControllerOption {
+func (w *dnsWorld) controllerOption() *DnsControllerOption { return w.controllerOptionFor(false) }
+
+// controllerOptionFor builds the option the way both production callers do: the dns section's
+// behaviour settings (optimistic cache, its TTL, the size limit) are stored on the plane when it is
+// built (NewControlPlane), and ControlPlane.dnsControllerOption() carries them - for a new controller
+// and for the reload that keeps the previous controller's store (ReuseDNSControllerFrom, reuse=true)
+// alike. Nothing is added to the option here: before repair 479d7df of /repo the reuse path silently
+// reset them (finding 41), which this engine saw as stale answers no longer served after a reload.
+func (w *dnsWorld) controllerOptionFor(reuse bool) *DnsControllerOption {
+	w.plane.dnsOptimisticCache = w.cfg.optimistic
+	w.plane.dnsOptimisticCacheTtl = w.cfg.staleTtl
+	w.plane.dnsMaxCacheSize = w.cfg.maxSize
 	opt := w.plane.dnsControllerOption()
-	opt.OptimisticCache = w.cfg.optimistic
-	opt.OptimisticCacheTtl = w.cfg.staleTtl
-	opt.MaxCacheSize = w.cfg.maxSize
+	_ = reuse
 	// remember which domain-rule bitmap each cache entry was created with (the oracle's
 	// "domain-rule bitmap of the cache entry"; the entry's own field is not read)
 	prodNew := opt.NewCache
